@@ -280,8 +280,8 @@ func (c *check) Init(tier string, seed int64) engine.Space {
 		names = append(names, d.name)
 	}
 	sp := engine.Space{
-		Units: c.nHist + int64(len(c.e2)) + int64(len(c.e3)) + int64(len(c.race)), Chunk: 4, Level: "model_checking", CaseCPUs: 60,
-		Rule: "hist: every sequence of renders of length L over the document set, each sequence in its own fresh process, every render compared with the document's fresh-process trace; e2: every map iteration (over a map with ≥ 2 entries) of every document started at every alternative position (thorough: pairs of iterations, reduced alternative set); e3: every interleaving of the concurrent renders of each scenario with at most B preemptions at the scheduling points derived from the current tree; race: free-running -race pass. A case is non-trivial when it compared a complete backend trace.",
+		Units: int64(len(c.docs)) + c.nHist + int64(len(c.e2)) + int64(len(c.e3)) + int64(len(c.race)), Chunk: 4, Level: "model_checking", CaseCPUs: 60,
+		Rule: "rewrite: every document rendered once and its Document written to three fresh backends in a row, the three call sequences compared; hist: every sequence of renders of length L over the document set, each sequence in its own fresh process, every render compared with the document's fresh-process trace; e2: every map iteration (over a map with ≥ 2 entries) of every document started at every alternative position (thorough: pairs of iterations, reduced alternative set); e3: every interleaving of the concurrent renders of each scenario with at most B preemptions at the scheduling points derived from the current tree; race: free-running -race pass. A case is non-trivial when it compared a complete backend trace.",
 		Bounds: map[string]any{"documents": names, "history_length": c.histL, "e2_runtime_overlay": maporder.Available, "e2_units": len(c.e2),
 			"e3_instrumented": e3Available, "e3_scenarios": scenarios[:nscen], "e3_preemption_bound": e3Bound(tier), "race_pass": os.Getenv("VERIF_RACE_BIN") != "",
 			"controlled_map_iterations_per_document": c.gold.Iters},
@@ -326,6 +326,8 @@ func (c *check) Run(u int64, ctx *engine.Ctx) {
 	}
 	fam, k := c.family(u)
 	switch fam {
+	case "rewrite":
+		c.runRewrite(int(k), ctx)
 	case "e3":
 		c.runE3(c.e3[k], ctx)
 	case "race":
@@ -340,6 +342,10 @@ func (c *check) Run(u int64, ctx *engine.Ctx) {
 // family maps a unit index to its family and the index inside it. Order: schedules, race pass,
 // histories, map order (the cheap and most structural families first).
 func (c *check) family(u int64) (string, int64) {
+	if u < int64(len(c.docs)) {
+		return "rewrite", u
+	}
+	u -= int64(len(c.docs))
 	if u < int64(len(c.e3)) {
 		return "e3", u
 	}
@@ -370,6 +376,44 @@ func (c *check) seqNames(seq []int) string {
 		s = append(s, c.docs[k].name)
 	}
 	return strings.Join(s, " → ")
+}
+
+// runRewrite: writing a rendered Document must not change it: the second and third output of the same
+// Document are the same call sequence as the first.
+func (c *check) runRewrite(d int, ctx *engine.Ctx) {
+	desc := "rewrite " + c.docs[d].name
+	var tr []string
+	if !ctx.GuardFail(desc, []string{"rewrite"}, func() { tr = rewriteTraces(&c.docs[d], 3) }) {
+		ctx.Case(true, "panic")
+		return
+	}
+	ctx.Trans(int64(len(tr)))
+	ctx.Case(true, hashOf(tr[0]))
+	for i := 1; i < len(tr); i++ {
+		if tr[i] != tr[0] {
+			a, b := firstDiffLine(tr[0], tr[i])
+			ctx.Fail(engine.Failure{Clause: "rewrite", Features: []string{"rewrite", "doc:" + c.docs[d].name}, Case: desc,
+				Detail: fmt.Sprintf("output #%d of the same Document differs from output #1: first %q, now %q", i+1, a, b)})
+			break
+		}
+	}
+}
+
+func firstDiffLine(a, b string) (string, string) {
+	la, lb := strings.Split(a, "\n"), strings.Split(b, "\n")
+	for i := 0; i < len(la) || i < len(lb); i++ {
+		var x, y string
+		if i < len(la) {
+			x = la[i]
+		}
+		if i < len(lb) {
+			y = lb[i]
+		}
+		if x != y {
+			return x, y
+		}
+	}
+	return "", ""
 }
 
 func (c *check) runHist(u int64, ctx *engine.Ctx) {
@@ -602,6 +646,8 @@ func (c *check) runRace(s int, ctx *engine.Ctx) {
 func (c *check) Describe(u int64) any {
 	fam, k := c.family(u)
 	switch fam {
+	case "rewrite":
+		return map[string]any{"rewrite": c.docs[k].name}
 	case "hist":
 		return map[string]any{"history": c.seqNames(c.histSeq(k))}
 	case "e2":
